@@ -141,8 +141,23 @@ pub fn check(c: &CrashCase) -> CheckResult {
                     }
                     let d1 = a.as_ref().and_then(|x| crash::ref_diff(x, s)).unwrap_or_default();
                     let d2 = b.as_ref().and_then(|x| crash::ref_diff(x, s)).unwrap_or_default();
+                    // signatures inside the in-place vacuum: (1) a frame table whose ids are not
+                    // 0..n is a half-overwritten TOC that was accepted; (2) the frame table of the
+                    // acknowledged state with unreadable / different contents is the old TOC over
+                    // payloads that vacuum has already moved
+                    let garbage_ids = s.frames.iter().enumerate().any(|(i, f)| f.0 != i as u64);
+                    let same_table_other_content = |x: &Option<crash::RefSnap>| {
+                        x.as_ref().is_some_and(|x| x.frames.len() == s.frames.len() && x.frames.iter().zip(s.frames.iter()).all(|(p, q)| (p.0, &p.1, &p.2, &p.3, p.5, p.6, p.7) == (q.0, &q.1, &q.2, &q.3, q.5, q.6, q.7)))
+                    };
+                    let key = if garbage_ids {
+                        format!("C02:damaged-toc-accepted-after-crash-in-{kind}")
+                    } else if kind == "vacuum" && (same_table_other_content(&a) || same_table_other_content(&b)) {
+                        "C02:payloads-moved-under-old-toc-after-crash-in-vacuum".to_string()
+                    } else {
+                        format!("C02:state-not-allowed-after-crash-in-{kind}")
+                    };
                     fails.push(Fail::new(
-                        format!("C02:state-not-allowed-after-crash-in-{kind}"),
+                        key,
                         format!("{where_}: reopened memory shows {} frames; it equals neither the state after the acknowledged ops ({d1}) nor the state including the in-flight op ({d2})", s.frames.len()),
                     ));
                 }
